@@ -28,6 +28,9 @@ COQ = os.path.join(ROOT, "coq")
 TH = os.path.join(COQ, "theories")
 REPO = os.environ.get("CKT_REPO", "/repo")
 VENV_PY = "/venv/bin/python"
+TAG = os.environ.get("CKT_TAG", "")  # non-empty: scratch run (seeded-change test); evidence/replays/cases go elsewhere
+EVID_DIR = os.path.join(ROOT, "evidence") if not TAG else f"/tmp/ckt_scratch_{TAG}/evidence"
+REPLAY_DIR = os.path.join(ROOT, "replays") if not TAG else f"/tmp/ckt_scratch_{TAG}/replays"
 sys.path.insert(0, os.path.join(ROOT, "lib"))
 from props import PROPS, GUARD_ENV  # noqa: E402
 
@@ -288,8 +291,8 @@ def run_witness(cfg, entry):
 # ------------------------------------------------------------------------------------
 
 def write_evidence(pid, ev):
-    os.makedirs(os.path.join(ROOT, "evidence"), exist_ok=True)
-    with open(os.path.join(ROOT, "evidence", f"{pid}.json"), "w") as f:
+    os.makedirs(EVID_DIR, exist_ok=True)
+    with open(os.path.join(EVID_DIR, f"{pid}.json"), "w") as f:
         json.dump(ev, f, indent=1, default=str)
 
 
@@ -298,7 +301,7 @@ def check(pid, tier, seed):
     cfg = PROPS[pid]
     log = []
     violations = []  # (replay_path, suffix)
-    replay_dir = os.path.join(ROOT, "replays")
+    replay_dir = REPLAY_DIR
     os.makedirs(replay_dir, exist_ok=True)
 
     def broken(kind, name, detail, case=None):
@@ -369,7 +372,7 @@ def check(pid, tier, seed):
     shard_results = []
     mismatches = []
     corr_error = None
-    outdir = os.path.join(COQ, "cases", pid)
+    outdir = os.path.join(COQ, "cases", pid + TAG)
     if cfg.get("harness"):
         if not corr_built:
             corr_error = "correspondence checker files did not build:\n" + mout[-2000:]
